@@ -222,7 +222,14 @@ func (c *cbWorld) key() string {
 		rs = append(rs, k+"="+strings.Join(v, ","))
 	}
 	sort.Strings(rs)
-	return strings.Join(parts, " ") + " reg=" + strings.Join(ks, ";") + " res=" + strings.Join(rs, ";") + fmt.Sprintf(" gone=%v%v last=%d", c.gone["A"], c.gone["B"], c.last)
+	// unanswered requests per connection (a repeated identical request is withheld and returns the earlier counter)
+	var rq []string
+	for _, p := range []string{"A", "B"} {
+		if !c.gone[p] {
+			rq = append(rq, fmt.Sprint(p, spine.VerifReqCache(c.w.Peers[p].Dev.Sender()), "next=", spine.VerifMsgNum(c.w.Peers[p].Dev.Sender())))
+		}
+	}
+	return strings.Join(parts, " ") + " reg=" + strings.Join(ks, ";") + " res=" + strings.Join(rs, ";") + fmt.Sprintf(" gone=%v%v last=%d unanswered=%v", c.gone["A"], c.gone["B"], c.last, rq)
 }
 
 func c14Alphabet(thorough bool) []string {
